@@ -8,6 +8,8 @@
   with a machine-checked counterexample for the script-building path.
 -/
 import GoBT.Addr.Address
+import GoBT.Addr.Base58Lemmas
+import GoBT.Gen.Limits
 namespace GoBT.C15
 open GoBT GoBT.Addr
 
@@ -83,5 +85,34 @@ theorem p2pkh_script_canonical (h : Bytes) (hl : h.length = 20) :
       Script.opDUP, Script.opHASH160]
     simp [Script.decodeParts, Script.decodePartsAux, Script.decodeStep, Script.opPUSHDATA1, Script.opPUSHDATA2,
       Script.opPUSHDATA4, h1, bind, Option.bind, pure]
+
+/-- **Base58 round trip** (go-bk's codec, dependency model): for every byte string, Decode (Encode bs) = bs. -/
+theorem base58_round_trip (bs : Bytes) : b58dec (b58enc bs) = bs := b58dec_b58enc bs
+
+/-- **Address round trip**: the address derived from any 20-byte hash on either network decodes back to that hash
+    (given a checksum function with at least four bytes of output). -/
+theorem address_round_trip (H : Hash) (hH : ∀ b, 4 ≤ (H b).length) (mainnet : Bool) (h : Bytes) (hl : h.length = 20) :
+    addressToPKH H (encodeAddress H mainnet h) = .ok h := by
+  unfold addressToPKH encodeAddress b58check
+  rw [b58dec_b58enc]
+  have hv : (if mainnet then verMain else verTest) = verMain ∨ (if mainnet then verMain else verTest) = verTest := by
+    cases mainnet <;> simp
+  generalize (if mainnet then verMain else verTest) = v at hv ⊢
+  have hck : (cksum H (v :: h)).length = 4 := by
+    unfold cksum; rw [List.length_take]; exact Nat.min_eq_left (hH _)
+  have hlen : (v :: (h ++ cksum H (v :: h))).length = 25 := by simp [hl, hck]
+  have hnot : ¬ ((v :: (h ++ cksum H (v :: h))).length ≠ 25) := fun hc => hc hlen
+  simp only [List.cons_append, hnot, ↓reduceIte, List.headD_cons, hv, List.drop_succ_cons, List.drop_zero]
+  congr 1
+  have e20 : 20 ≤ h.length := by omega
+  have e20' : h.length ≤ 20 := by omega
+  rw [List.take_append_of_le_length e20]
+  exact List.take_of_length_le e20'
+
+/-- ✓gen — the address version bytes of address.go are the ones the model uses -/
+theorem version_bytes_match :
+    GoBT.Gen.intConsts.lookup "bscript.hashP2PKH" = some (verMain.toNat : Int) ∧
+    GoBT.Gen.intConsts.lookup "bscript.hashTestNetP2PKH" = some (verTest.toNat : Int) := by
+  decide +kernel
 
 end GoBT.C15
